@@ -192,11 +192,32 @@ def main(argv=None):
         return selftest.main(args)
 
     t0 = time.time()
+    if args.replay:
+        # the str-hash seeds of the interpreters are part of what a run depends on: a replay
+        # file records them and is replayed under the same ones, in a fresh interpreter
+        try:
+            with open(args.replay) as f:
+                hs = json.load(f).get("hashseed")
+        except Exception:  # noqa: BLE001
+            hs = None
+        if hs is not None and os.environ.get("PYTHONHASHSEED") != str(hs):
+            os.execve(sys.executable, [sys.executable, os.path.join(VERIF, "check")] + sys.argv[1:], {**os.environ, "PYTHONHASHSEED": str(hs)})
     try:
+        from . import altserver, runner
+
+        need_alt = args.prop in ("C17", "C18", "C20")
+        if need_alt:
+            main_hs = int(os.environ.get("PYTHONHASHSEED", "0") or 0)
+            altserver.start(os.path.join(runner.scratch_dir(args.prop + "-alt"), "alt.sock"), (main_hs + 1) % 4294967296)
         from . import install
 
         install.install()
-        from . import runner, shrink
+        from . import shrink
+
+        if need_alt and not altserver.wait_ready(180):
+            log("HARNESS-ERROR alternate-interpreter server did not start")
+            altserver.stop()
+            return 2
 
         props = _props()
         if args.prop not in props:
@@ -212,6 +233,9 @@ def main(argv=None):
             return do_search(args, cfg, base, t0)
         finally:
             shutil.rmtree(base, ignore_errors=True)
+            if need_alt:
+                altserver.stop()
+                shutil.rmtree(runner.scratch_dir(args.prop + "-alt"), ignore_errors=True)
     except Exception as e:  # noqa: BLE001
         import traceback
 
@@ -402,9 +426,10 @@ def do_search(args, cfg, base, t0):
         path = os.path.join(rdir, f"{prop}-{clause}-{args.seed}-{j[0]}{j[1]}.json")
         with open(path, "w") as f:
             json.dump({"property": prop, "clause": clause, "detail": fdetail, "verif_seed": args.seed, "job": list(j), "variant": variant,
+                       "hashseed": int(os.environ.get("PYTHONHASHSEED", "0") or 0),
                        "shrink_execs": execs, "shrink_steps": steps, "plan": small}, f, indent=1, sort_keys=True)
         rc = subprocess.run([sys.executable, os.path.join(VERIF, "check"), prop, "--replay", path], capture_output=True, text=True,
-                            env={**os.environ, "PYTHONHASHSEED": "4242"}, timeout=600)
+                            env={k_: v_ for k_, v_ in os.environ.items() if k_ != "VERIF_ALT_SOCK"}, timeout=600)
         if rc.returncode != 1:
             log(f"HARNESS-ERROR replay of {path} in a fresh interpreter returned {rc.returncode}: {rc.stdout[-500:]} {rc.stderr[-500:]}")
             return 2
@@ -419,7 +444,7 @@ def do_search(args, cfg, base, t0):
         step = max(1, len(idxs) // max(8, len(idxs) // 50))
         sample = idxs[::step][:400]
         rc = subprocess.run([sys.executable, os.path.join(VERIF, "check"), prop, "--seed", str(args.seed), "--digests", ",".join(map(str, sample)), "--workers", "3"],
-                            capture_output=True, text=True, env={**os.environ, "PYTHONHASHSEED": "4242"}, timeout=3600)
+                            capture_output=True, text=True, env={**{k_: v_ for k_, v_ in os.environ.items() if k_ != "VERIF_ALT_SOCK"}, "PYTHONHASHSEED": "4242"}, timeout=3600)
         m = re.search(r"^DIGESTS (.*)$", rc.stdout, re.M)
         if rc.returncode != 0 or not m:
             log(f"HARNESS-ERROR determinism re-run failed: rc={rc.returncode} {rc.stdout[-300:]} {rc.stderr[-300:]}")
